@@ -255,7 +255,7 @@ class Quantity:
 
         return ObtainQuantity(
             OrderedDict(
-                (category, unit_and_exp[:])
+                (category, list(unit_and_exp))
                 for (category, unit_and_exp) in category_to_unit_and_exps.items()
             ),
             unknown_unit_caption=unknown_unit_caption,
